@@ -43,6 +43,7 @@ type schedPlan struct {
 	Schedule schedule    `json:"schedule"`
 	StepCap  int64       `json:"step_cap,omitempty"`
 	Record   string      `json:"record,omitempty"`
+	Foreign  bool        `json:"foreign_possible,omitempty"` // the tree starts goroutines of its own (set from the instrumenter's report)
 	Grants   bool        `json:"want_grants,omitempty"`
 	Focus    []int       `json:"focus,omitempty"` // informational: languages in focus
 }
@@ -60,6 +61,7 @@ type schedStats struct {
 	OtherStepsInBuild int64 `json:"steps_by_other_tasks_while_a_once_ran"`
 	LockAcquires      int   `json:"lock_acquisitions"`
 	CondWaits         int   `json:"cond_waits"`
+	ForeignWakes      int   `json:"wakeups_from_unscheduled_goroutines"`
 	PoolDrops         int64 `json:"pool_items_dropped"`
 	ExplicitFallbacks int   `json:"explicit_fallbacks"`
 }
@@ -184,6 +186,11 @@ func (g *c12Engine) runPlan(sp *schedPlan, env ...string) (*schedOut, *schedVerd
 	d := g.e.JobDir()
 	defer os.RemoveAll(d)
 	inP, outP := filepath.Join(d, "plan.json"), filepath.Join(d, "out.json")
+	if g.unmodelled && !sp.Foreign {
+		c := *sp
+		c.Foreign = true
+		sp = &c
+	}
 	b, _ := json.Marshal(sp)
 	if err := os.WriteFile(inP, b, 0644); err != nil {
 		return nil, nil, err
